@@ -224,6 +224,15 @@ class QvmEval(EvaluationContext):
         try:
             var_idx = get_local_var_idx(routine, var)
         except KeyError:
+            if var in routine.static_vars:
+                # STATIC variables live in the globals segment under
+                # a name qualified with the routine's
+                full_name = routine.get_variable(var).full_name
+                try:
+                    return (self.cpu.globals_segment,
+                            get_global_var_idx(self, full_name))
+                except KeyError:
+                    pass
             raise EvalError('Unknown variable')
         return self.cpu.cur_frame, var_idx
 
